@@ -437,6 +437,8 @@ func main() {
 	r.Floor("empty_frames_sent_by_the_peer", int(r.Counter("empty_frames_sent_by_the_peer")), 300)
 	r.Floor("idle_periods_injected", int(r.Counter("idle_periods_injected")), 1000)
 
+	pauseDone := make(chan struct{})
+	go func() { defer close(pauseDone); r.Guard("long pause", func() { longPause(r) }) }()
 	r.Guard("harness N", func() { neighbours(r) })
 	r.Floor("neighbour_rounds_completed+violations", int(r.Counter("neighbour_rounds_completed"))+r.ViolationCount(), r.Pick(150, 3000)*9/10)
 	r.Floor("neighbour close variants", r.DistinctN("neighbour_close_variant"), 4)
@@ -446,5 +448,6 @@ func main() {
 	if r.ViolationCount() == 0 {
 		handoverRace(r) // (a tree that already violates is not also run under the race detector)
 	}
+	<-pauseDone
 	r.Finish()
 }
